@@ -656,21 +656,23 @@ class Engine(object):
 
     def _collect(self, comp, opname, call, expected, hints):
         """One garbage_collect / initialize pass.  `expected` is what a
-        complete pass leaves.  A pass that raises because its stat failed
-        may have removed any subset of what a complete pass removes - and
-        nothing else: never an entry whose owner exists."""
+        complete pass leaves.  A pass whose stat failed (it normally
+        raises) may have removed any subset of what a complete pass removes
+        - and nothing else: never an entry whose owner exists."""
         proxy = self._fs_arm(comp)
-        aborted = False
+        fired = None
         try:
-            call()
+            try:
+                call()
+            finally:
+                fired = self._fs_disarm(comp, proxy)
         except OSError:
-            if proxy is None or not proxy.fired:
+            if not fired:
                 raise
-            aborted = True
-        finally:
-            self._fs_disarm(comp, proxy)
-        if aborted:
             self.count('fsfault.%s.pass-aborted' % comp)
+        if fired:
+            # (a pass that swallows the error and leaves the entry it could
+            # not look up is within the envelope as well)
             after = read_links(self.dirs[comp])
             expected = {
                 key: own for key, own in self.model[comp].items()
@@ -1195,7 +1197,7 @@ class Engine(object):
         final = {}
         for addr, own in expected.items():
             if own not in valid:
-                if crashed and addr in after:
+                if (crashed or fs_fired) and addr in after:
                     final[addr] = own
                 continue
             if addr in self.svc_loose and addr not in after:
